@@ -33,7 +33,7 @@ import (
 // the Go race detector evaluated on the simulated interleaving (race build).
 
 var concFaults = []string{"preempt", "lock-contended", "curve-first-use", "close-during-write", "rotation-during-handshake", "pct-schedule", "dense-preemption", "transport-write-blocks", "peer-transport-abort"}
-var concReach = []string{"block-shared", "pkg-sign", "pkg-encrypt", "pkg-hash", "pkg-sm4", "pkg-parse", "pkg-pkcs7-ber", "pkg-verify-chain", "pkg-sm4-modes", "pkg-key-codec", "pkg-create-cert", "pkg-pkcs12", "pkg-key-exchange", "cache-linearizable", "cache-eviction", "pool-verify", "pool-verify-rejecting", "conn-linearizable", "conn-close-raced", "write-after-close-failed", "config-handshakes", "config-rotated", "config-resumed", "config-followup-resumption-owed", "config-rotation-inside-ticket-code", "conn-multi-record-writes", "conn-write-inside-last-flight", "conn-quiet-peer", "conn-concurrent-ekm", "conn-hello-request", "conn-renegotiation-started", "conn-deadline-interrupt", "tasks>=8", "tasks>=16", "porcupine-unknown"}
+var concReach = []string{"block-shared", "pkg-sign", "pkg-encrypt", "pkg-hash", "pkg-sm4", "pkg-parse", "pkg-pkcs7-ber", "pkg-verify-chain", "pkg-sm4-modes", "pkg-key-codec", "pkg-create-cert", "pkg-pkcs12", "pkg-key-exchange", "cache-linearizable", "cache-eviction", "pool-verify", "pool-verify-rejecting", "conn-linearizable", "conn-close-raced", "write-after-close-failed", "config-handshakes", "config-rotated", "config-resumed", "config-followup-resumption-owed", "config-rotation-inside-ticket-code", "config-client-shared", "conn-multi-record-writes", "conn-write-inside-last-flight", "conn-quiet-peer", "conn-concurrent-ekm", "conn-hello-request", "conn-renegotiation-started", "conn-deadline-interrupt", "tasks>=8", "tasks>=16", "porcupine-unknown"}
 
 func init() {
 	for i, p := range []struct {
@@ -1594,6 +1594,12 @@ func runConcConfig(c *simkit.Choice, r *simkit.Rec) {
 	// own caches: every client keeps the ticket of its own connection, and offers it
 	// in a follow-up connection once everything concurrent is over
 	ownCache := c.Bool(2, 3, simkit.LScen)
+	// one client Config object shared by all simultaneous dials (as an application
+	// with one http.Transport has), instead of one Config per connection
+	sharedCC := c.Bool(1, 3, simkit.LScen)
+	if sharedCC {
+		ownCache = false
+	}
 	ccfgs := make([]*gmtls.Config, nconn)
 	// written and read by different tasks: atomics (the scheduler's baton is invisible to the race detector)
 	hsStart := make([]atomic.Int64, nconn)
@@ -1613,6 +1619,17 @@ func runConcConfig(c *simkit.Choice, r *simkit.Rec) {
 		scfg.Certificates = []gmtls.Certificate{pki.GMStd("tlsrsa")}
 		scfg.CipherSuites = []uint16{0xc02f, 0x009c}
 	}
+	// the shared server Config may answer through its certificate callbacks
+	srvCallbacks := c.Bool(1, 3, simkit.LScen)
+	staticCerts := scfg.Certificates
+	if srvCallbacks {
+		certs := scfg.Certificates
+		scfg.Certificates = nil
+		scfg.GetCertificate = func(*gmtls.ClientHelloInfo) (*gmtls.Certificate, error) { return &certs[0], nil }
+		if mode == 0 {
+			scfg.GetKECertificate = func(*gmtls.ClientHelloInfo) (*gmtls.Certificate, error) { return &certs[1], nil }
+		}
+	}
 	for i := range ccfgs {
 		cc := &gmtls.Config{Rand: simkit.NewStream(ent + 100 + uint64(i)), Time: simTime(s, 0), ServerName: "server.sim", ClientSessionCache: cache}
 		if ownCache {
@@ -1627,6 +1644,12 @@ func runConcConfig(c *simkit.Choice, r *simkit.Rec) {
 			cc.CipherSuites = []uint16{0xc02f, 0x009c}
 		}
 		ccfgs[i] = cc
+	}
+	if sharedCC {
+		for i := range ccfgs {
+			ccfgs[i] = ccfgs[0]
+		}
+		r.Reach(idx(concReach, "config-client-shared"))
 	}
 	var rotGap [3]int
 	for k := range rotGap {
@@ -1815,7 +1838,7 @@ func runConcConfig(c *simkit.Choice, r *simkit.Rec) {
 					// what tickets are sealed under
 					fcfg := scfg
 					if rotate && i%2 == 1 {
-						fcfg = &gmtls.Config{Rand: simkit.NewStream(ent + 7), Time: simTime(s, 0), GMSupport: scfg.GMSupport, Certificates: scfg.Certificates, CipherSuites: scfg.CipherSuites}
+						fcfg = &gmtls.Config{Rand: simkit.NewStream(ent + 7), Time: simTime(s, 0), GMSupport: scfg.GMSupport, Certificates: staticCerts, CipherSuites: scfg.CipherSuites}
 						var k1, k2 [32]byte
 						k1[0], k2[0] = byte(nRot), byte(nRot-1)
 						fcfg.SetSessionTicketKeys([][32]byte{k1, k2})
